@@ -74,10 +74,17 @@ def find_spec(interp, frame, node):
                 if fr.model_site is None and fr.reduce_site is None:
                     return None, ordinal      # an ordinary loop of a Python-level model (no call-site spec)
                 key = fr.model_site if fr.model_site is not None else 'reduce#%d' % fr.reduce_site
-                spec = interp.reg.loops_by_key.get((fr.info.filename, fr.info.qualname, key))
+                spec = _pick(interp, interp.reg.loops_by_key.get((fr.info.filename, fr.info.qualname, key)))
                 return spec, key
         return None, ordinal
-    return interp.reg.loops_by_key.get((frame.info.filename, frame.info.qualname, ordinal)), ordinal
+    return _pick(interp, interp.reg.loops_by_key.get((frame.info.filename, frame.info.qualname, ordinal))), ordinal
+
+
+def _pick(interp, specs):
+    """several sidecar modules may annotate the same loop: the module under verification comes first"""
+    if specs is None or not hasattr(specs, 'pick'):
+        return specs
+    return specs.pick(getattr(interp.reg, 'current_module', None))
 
 
 _MUTATORS = {'append', 'extend', 'insert', 'pop', 'add', 'update', 'clear', 'remove', 'popleft', 'appendleft',
@@ -208,6 +215,15 @@ def _havoc(interp, frame, spec, modified_names, tag):
                 raise Unsupported('modifies %r: not a list' % name)
     for name, ty in spec.modifies.items():
         if isinstance(ty, MListOf) and '.' not in name and not name.startswith('ghost:'):
+            continue
+        if hasattr(ty, 'havoc_in_place'):
+            # mutable (ghost) state of an object reached through a local: havocked in place, identity kept
+            obj = None
+            for k, part in enumerate(name.split('.')):
+                obj = frame.locals.get(part) if k == 0 else interp.getattr(obj, interp.mangle(part, frame.info.class_name))
+            if obj is None:
+                raise Unsupported('modifies entry %r: unknown object' % name)
+            ty.havoc_in_place(interp, obj, '%s@%s' % (name, tag))
             continue
         if ty == 'iter':
             # an iterator over a symbolic sequence that the body advances (nested loops over it, calls that
@@ -408,6 +424,7 @@ def exec_for(interp, node, frame):
     src = interp.eval(node.iter, frame)
     if isinstance(src, (SOpt, SChoice)):
         src = interp.resolve(src)
+    src = models.as_siter(interp, src)
     if isinstance(src, (SList, models.SIter, models.SEnumerate)):
         return _for_symbolic(interp, node, frame, src)
     spec, ordinal = find_spec(interp, frame, node)
@@ -483,6 +500,8 @@ def _for_symbolic(interp, node, frame, src):
     if which == 0:
         i = st.fresh_int('_i@' + tag)
         st.assume(z3.And(i >= start, i < n))
+        if isinstance(ordinal, int):
+            frame.locals['_i%d' % ordinal] = wrap(i)      # visible to invariants of inner loops
         st.assume(interp.truth(_call_pred(interp, spec.invariant, env(i))))
         frame.loop_index[ordinal] = wrap(i)
         x = models.slist_elem(interp, xs, i)
@@ -507,10 +526,16 @@ def _for_symbolic(interp, node, frame, src):
             if r[0] == 'break':
                 return None
             return r
-        inv2 = interp.truth(_call_pred(interp, spec.invariant, env(i + 1)))
+        nxt = i + 1
+        if it_cell is not None:
+            # the body may itself have consumed more of the iterator (e.g. `f.writelines(lines)`)
+            nxt = to_z3(it_cell.pos) if not isinstance(it_cell.pos, int) else z3.IntVal(it_cell.pos)
+        inv2 = interp.truth(_call_pred(interp, spec.invariant, env(nxt)))
         _oblige_conjuncts(st, label + ' invariant[preserved]', inv2, {'kind': 'loop-preserve'})
         raise PathAbort()
     # exit: all elements consumed
+    if isinstance(ordinal, int):
+        frame.locals['_i%d' % ordinal] = wrap(n)
     st.assume(start <= n)
     st.assume(interp.truth(_call_pred(interp, spec.invariant, env(z3.If(start <= n, n, start)))))
     frame.loop_index[ordinal] = wrap(n)
